@@ -41,6 +41,18 @@ def strategy(shard):
             head = [u] * a + [draw(st.sampled_from([u / 2, u / 4, t, 0.0])) for _ in range(draw(st.integers(0, 2)))]
             x = (head + [draw(st.sampled_from([0.0, 0.0, 0.0, u / 8])) for _ in range(N)])[: draw(st.integers(max(2, N - 2), N))]
             x = [float(v) for v in x]
+        elif draw(st.integers(0, 60)) == 0 and (cfg["estim"] == "shrink_trunc" or cfg["bet"] == "agrapa" or draw(st.booleans())):
+            # a sample of more than a thousand draws (runs of a few values), cut just before / at / after 1024 or 2048 draws:
+            # what has been reported for the first k draws does not depend on how long the sample has become since
+            n = draw(st.sampled_from([1030, 1100, 2050, 2100]))
+            vals = [draw(nonneg._value(cfg["u"], cfg["t"])) for _ in range(4)]
+            run = draw(st.sampled_from([1, 3, 37]))
+            x = [float(vals[(i // run) % 4]) for i in range(n)]
+            k = draw(st.sampled_from([c for c in (1000, 1023, 1024, 1025, 1029, 2047, 2048, 2049, n - 1) if c < n]))
+            y = [float(v) for v in draw(st.lists(nonneg._value(cfg["u"], cfg["t"]), min_size=1, max_size=6))]
+            if N is not None:
+                cfg["N"] = n + 10 + draw(st.integers(0, 500))
+            return {"cfg": cfg, "x": x, "k": k, "y": y}
         else:
             x = draw(nonneg.sample(cfg, min_size=2, max_size=40))
         if len(x) < 2:
@@ -143,7 +155,9 @@ def evaluate(case, out):
                 out.cls("null-certain-at-a-cut-while-history<1")
                 break
     try:
-        for kk in range(1, len(x)):
+        # (every cut of an ordinary sample; for a sample of a thousand draws or more, cuts around the round numbers)
+        cuts = range(1, len(x)) if len(x) <= 200 else sorted({c for c in (1, 2, 100, 255, 256, 257, 1000, 1023, 1024, 1025, 1026, 2047, 2048, 2049, len(x) - 1) if c < len(x)})
+        for kk in cuts:
             if kk == k:
                 continue
             hkk = hist(x[:kk])
